@@ -40,16 +40,29 @@ def c18(ctx):
               ("A,B", 2, 10000, False), ("A,E", 2, 10000, False), ("A,A", 2, 8000, False), ("B,D", 2, 8000, False),
               ("C,A", 2, 8000, False), ("B,B", 2, 5000, False), ("E,B", 2, 5000, False), ("s,f", 2, 8000, False),
               ("a,b,d", 2, 8000, False), ("a,a,b", 2, 8000, False)]
+    # the shared token state (login state, last-session logout, the user PIN): ConcTok, a linearizability check
+    shared = [("Lc,Lo", 2, 3000, False), ("Lp,Lq", 1, 1500, True), ("Lr,Lx", 2, 2000, False), ("Lv,Ll", 2, 2000, False),
+              ("Lc,Lo", 1, 1500, True)] if quick else \
+             [("Lc,Lo", 2, 30000, False), ("Lc,Lo", 2, 20000, True), ("Lp,Lq", 2, 20000, True), ("Lr,Lx", 2, 20000, False),
+              ("Lv,Ll", 2, 20000, False), ("Lc,Lv,Ll", 2, 20000, False), ("Lp,Lq,Lr", 2, 20000, False), ("Lr,Lx", 1, 10000, True)]
+    tc_shared = dict(Threads=THREADS, PinSyms='{"P0", "P1", "P2", "PX"}', InitPin='"P0"',
+                     Dev="{" + ", ".join('"%s"' % d for d in sorted(known) if d == "EarlyVisible") + "}")
+    combos = combos + [c + (True,) for c in shared]
+    only = [x for x in os.environ.get("VERIF_ONLY", "").split(";") if x]          # development runs
+    if only:
+        combos = [c for c in combos if c[0] in only]
     tot = dict(states=0, transitions=0, schedules=0, paths_total=0, executions=0, accepted=0, events=0, devlog=[], lock_points={},
                calls={})
-    for progs, maxpre, cap, full in combos:
+    for combo in combos:
+        progs, maxpre, cap, full = combo[:4]
+        tmod, tcc = ("Trace_ConcTok", tc_shared) if len(combo) > 4 else ("Trace_Conc", tc)
         if ctx.violations:
             break
         n = progs.count(",") + 1
         pj, lens, calout = calibrate(ctx, lib, progs, full)
         tot["lock_points"][progs + ("/full" if full else "")] = lens
         cmode = "controlled-full" if full else "controlled"
-        tag = progs.replace(",", "") + ("f%d" % maxpre if full else "")
+        tag = progs.replace(",", "") + ("f%d" % maxpre if full else "") + ("p%d" % maxpre if len(combo) > 4 and not full else "")
         env = {"PROG": pj}
         # (a) no interleaving of the recorded lock programs deadlocks (unbounded preemption)
         res, _ = pipeline.model_check(ctx, "Conc", "dl-" + tag, dict(NThreads=str(n), MaxPre="9999"),
@@ -66,10 +79,12 @@ def c18(ctx):
         tot["schedules"] += len(ps)
         tot["paths_total"] += total
         st = pipeline.replay_validate(ctx, "c18-" + tag, "vf.drv_conc", [lib, cmode, progs], ps,
-                                      "Trace_Conc", tc, jobs=15, max_rej_per_chunk=1, max_confirm=3)
+                                      tmod, tcc, jobs=15, max_rej_per_chunk=1, max_confirm=3)
         pipeline.report_rejections(ctx, "c18-" + tag, st, "vf.drv_conc", [lib, cmode, progs])
         for k in ("executions", "accepted", "events"):
             tot[k] += getattr(st, k)
+        for d in st.devlog:
+            d["tmod"], d["tc"] = tmod, tcc
         tot["devlog"] += st.devlog
         if st.samples and len(tot.setdefault("samples", [])) < 2:
             tot["samples"].append(st.samples[0][:8])
@@ -79,7 +94,7 @@ def c18(ctx):
             c2[1] += v2[1]
     # (c) free-running threads with OS locking (stress): 8 and 16 threads
     free = dict(executions=0, accepted=0, events=0)
-    for fi, (progs, rounds) in enumerate([("a,b,d,a,b,d,a,b", 300), ("A,B,C,D,E,A,B,C,D,E,A,B,C,D,E,A", 150)] if quick else
+    for fi, (progs, rounds) in enumerate([] if only else [("a,b,d,a,b,d,a,b", 300), ("A,B,C,D,E,A,B,C,D,E,A,B,C,D,E,A", 150)] if quick else
                           [("a,b,d,a,b,d,a,b", 1500), ("A,B,C,D,E,A,B,C,D,E,A,B,C,D,E,A", 600), ("a,a,a,a,a,a,a,a", 1500),
                            ("B,B,B,B,D,D,D,D", 600)]):
         if ctx.violations:
@@ -105,9 +120,10 @@ def c18(ctx):
                 f.write("\n".join(cand["trace"]) + "\n")
             cfg = os.path.join(wd, "req.cfg")
             others = "{" + ", ".join('"%s"' % d for d in sorted(known) if d != name) + "}"
-            tlc.write_cfg(cfg, spec="TSpec", constants=dict(tc, Dev=others), constraint="TrackMax", postcondition="TraceAccepted")
+            tlc.write_cfg(cfg, spec="TSpec", constants=dict(cand.get("tc", tc), Dev=others), constraint="TrackMax",
+                          postcondition="TraceAccepted")
             try:
-                v = tlc.validate_trace("Trace_Conc", cfg, tr, wd, len(cand["trace"]))
+                v = tlc.validate_trace(cand.get("tmod", "Trace_Conc"), cfg, tr, wd, len(cand["trace"]))
             except tlc.TLCBroken as e:
                 raise Broken(str(e))
             if not v.accepted:
